@@ -282,12 +282,28 @@ func genAdminRandom(g *Gen, n int) {
 	for sc := 0; sc < n; sc++ {
 		g.line("BEGIN id=%d", sc)
 		s := stdScn(g, 4)
+		if g.r.Chance(1, 5) {
+			// a genesis that leaves one of the three delegated roles blank (Validate accepts an empty address): nobody holds
+			// that role - in particular not the owner - until the owner assigns it
+			switch g.r.Intn(3) {
+			case 0:
+				s.attmgr = ""
+			case 1:
+				s.pauser = ""
+			case 2:
+				s.tokctl = ""
+			}
+			g.stats.Mut("blank-role-in-genesis")
+		}
 		s.Init()
 		g.stats.Scripts++
 		txs := adminTxs()
 		for i := 0; i < 40; i++ {
 			t := txs[g.r.Intn(len(txs))]
 			from := map[string]string{"owner": s.owner, "attmgr": s.attmgr, "pauser": s.pauser, "tokctl": s.tokctl, "pending": s.A(1)}[t.role]
+			if from == "" || g.r.Chance(1, 6) {
+				from = s.owner // the owner is the natural candidate for a role nobody holds
+			}
 			if g.r.Chance(1, 5) {
 				from = s.A(g.r.Intn(4))
 			} else if g.r.Chance(1, 8) {
@@ -296,7 +312,11 @@ func genAdminRandom(g *Gen, n int) {
 					g.stats.Mut("lookalike-submitter")
 				}
 			}
-			g.tx(t.ty, from, g.randAdminArgs(s, t), "")
+			args := g.randAdminArgs(s, t)
+			if holder := map[string]string{"owner": s.owner, "attmgr": s.attmgr, "pauser": s.pauser, "tokctl": s.tokctl}[t.role]; t.role != "pending" && holder == "" && g.r.Chance(3, 4) {
+				args = t.rest(s) // arguments an authorised submission would succeed with: only the missing role can stop it
+			}
+			g.tx(t.ty, from, args, "")
 		}
 	}
 }
